@@ -106,6 +106,25 @@ const MAX_KNN_K: u32 = kyrodb_engine::api_validation::MAX_KNN_K;
 /// Interval for persisting per-tenant usage snapshots to disk.
 const USAGE_EXPORT_INTERVAL_SECS: u64 = 60;
 
+/// True when `data_dir` holds persisted documents: a snapshot file, or a WAL segment with at
+/// least one byte after its 4-byte magic header. (A first start that crashed between creating
+/// its WAL and writing the MANIFEST leaves only a header-only segment: still a new database.)
+fn data_dir_has_persisted_documents(data_dir: &Path) -> bool {
+    let Ok(entries) = std::fs::read_dir(data_dir) else {
+        return false;
+    };
+    entries.flatten().any(|entry| {
+        let name = entry.file_name();
+        let name = name.to_string_lossy();
+        if name.starts_with("snapshot_") && name.ends_with(".snap") {
+            return true;
+        }
+        name.starts_with("wal_")
+            && name.ends_with(".wal")
+            && entry.metadata().map(|m| m.len() > 4).unwrap_or(true)
+    })
+}
+
 fn unix_timestamp_secs() -> u64 {
     SystemTime::now()
         .duration_since(UNIX_EPOCH)
@@ -3561,7 +3580,10 @@ async fn main() -> anyhow::Result<()> {
 
     let data_dir_path = config.persistence.data_dir.clone();
     let manifest_path = data_dir_path.join("MANIFEST");
-    let should_attempt_recovery = config.persistence.enable_recovery && manifest_path.exists();
+    // A data directory that still holds persisted documents but has lost its MANIFEST must go
+    // through recovery (which refuses it) rather than be taken for a new, empty database.
+    let should_attempt_recovery = config.persistence.enable_recovery
+        && (manifest_path.exists() || data_dir_has_persisted_documents(&data_dir_path));
 
     let create_empty_engine =
         |cache_strategy: Box<dyn kyrodb_engine::CacheStrategy>,
